@@ -269,6 +269,12 @@ func propC06(c *ctx) error {
 			tc{`<div><` + v + ` :range="_, x : ns" :title="${x}"><p :text="${x}">o</p></div>`, `<div><` + v + ` title="&lt;nil&gt;"><` + v + ` title="1"><p>d</p></div>`},
 			tc{`<` + v + ` :with="g := ${'local'}" :alt="${g}"><i :text="${g}">o</i>`, `<` + v + ` alt="local"><i>G</i>`})
 	}
+	// several bindings in one `with`, written over several lines / with tabs between them: every one of them is bound
+	for _, sep := range []string{";", "; ", ";\n", ";\n    ", ";\t", " ;\r\n\t", ";\n\n", " ; "} {
+		tcs = append(tcs,
+			tc{`<a :with="p := ${'1'}` + sep + `x := ${'2'}` + sep + `q := ${x}" :text="${p}|${x}|${q}">o</a><b :text="${x}">o</b>`, `<a>1|2|d</a><b>d</b>`}, // (values are evaluated in the scope outside the element)
+			tc{`<div :with="x := ${'outer'}"><a :with="k := ${1}` + sep + `x := ${'inner'}"><i :text="${x}${k}">o</i></a><i :text="${x}">o</i></div>`, `<div><a><i>inner1</i></a><i>outer</i></div>`})
+	}
 	nFixed := len(tcs)
 	var recData []val
 	// a binding made by `with` inside a fragment that re-enters ITSELF: after the inner instance has evaluated the same
